@@ -101,7 +101,8 @@ def isPrefix : List (Rec Nat) → List (Rec Nat) → Bool
 def changes (old new : FS Nat) : String :=
   let parts := allPaths.filterMap fun p =>
     let o := old.files p; let n := new.files p
-    if o == n then none
+    if new.trunc p != old.trunc p && !o.isEmpty then some (toString p ++ ":0:" ++ showRecs n)
+    else if o == n then none
     else if isPrefix o n then some (toString p ++ ":" ++ toString o.length ++ ":" ++ showRecs (n.drop o.length))
     else some (toString p ++ ":0:" ++ showRecs n)
   if parts.isEmpty then "-" else ";".intercalate parts
@@ -110,7 +111,7 @@ structure DS where
   s : St Flt Nat
   fs : FS Nat
 
-def ds0 : DS := { s := init (fun _ => 0), fs := { files := fun _ => [], cur := none } }
+def ds0 : DS := { s := init (fun _ => 0), fs := { files := fun _ => [], cur := none, trunc := fun _ => 0 } }
 
 def b2s (b : Bool) : String := if b then "1" else "0"
 
